@@ -16,6 +16,7 @@ import (
 	"fmt"
 	"sort"
 	"strings"
+	"sync"
 
 	"github.com/notaryproject/notation-go"
 	"github.com/notaryproject/notation-go/verifharness/lib"
@@ -116,7 +117,9 @@ func main() {
 	suffixes := []struct {
 		s      string
 		digest bool
-	}{{digestSuffix, true}, {"", false}, {":v1", false}, {":v1" + digestSuffix, false}, {digestSuffix + digestSuffix, false}}
+	}{{digestSuffix, true}, {"", false}, {":v1", false}, {":v1" + digestSuffix, false}, {digestSuffix + digestSuffix, false},
+		// digests of the other registered / supported algorithms select exactly like sha256 ones
+		{"@sha384:" + strings.Repeat("b", 96), true}, {"@sha512:" + strings.Repeat("c", 128), true}}
 
 	type doc struct {
 		st    []trustpolicy.OCITrustPolicy
@@ -347,6 +350,65 @@ func main() {
 			}
 		}
 	}, r.PanicViolation("verifier.Verify"))
+
+	// ---- 2c. ONE verifier shared by goroutines that ask about different repositories at the same time: every answer is
+	// the answer for the reference that was asked (the statements differ in their level, which both entry points report)
+	{
+		lv := []string{"strict", "permissive", "audit"}
+		var sts []trustpolicy.OCITrustPolicy
+		want := map[string]string{}
+		for k, name := range lv {
+			repo := fmt.Sprintf("reg.io/shared/%d", k)
+			sts = append(sts, trustpolicy.OCITrustPolicy{Name: name, RegistryScopes: []string{repo}, SignatureVerification: trustpolicy.SignatureVerification{VerificationLevel: name}, TrustStores: []string{"ca:x"}, TrustedIdentities: []string{"*"}})
+			want[repo] = name
+		}
+		sts = append(sts, trustpolicy.OCITrustPolicy{Name: "everything-else", RegistryScopes: []string{"*"}, SignatureVerification: trustpolicy.SignatureVerification{VerificationLevel: "skip"}})
+		want["reg.io/shared/unlisted"], want["other.io/x"] = "skip", "skip"
+		ts := lib.NewMemTS().Put("ca:x", signer.Root().Cert)
+		v, err := verifier.NewVerifierWithOptions(ts, verifier.VerifierOptions{OCITrustPolicy: &trustpolicy.OCIDocument{Version: "1.0", TrustPolicies: sts}, RevocationCodeSigningValidator: lib.OKRev{}, RevocationTimestampingValidator: lib.OKRev{}})
+		if err != nil {
+			panic(err)
+		}
+		var repos []string
+		for k := range want {
+			repos = append(repos, k)
+		}
+		sort.Strings(repos)
+		rounds := r.N(4000, 60000)
+		var wg sync.WaitGroup
+		for g := 0; g < 8; g++ {
+			wg.Add(1)
+			go func(g int) {
+				defer wg.Done()
+				defer func() {
+					if p := recover(); p != nil {
+						r.Violation(map[string]string{"kind": "panic", "phase": "shared-verifier"}, fmt.Sprintf("shared verifier: panic: %v", p), nil)
+					}
+				}()
+				repo := repos[g%len(repos)]
+				ref := repo + "@" + desc.Digest.String()
+				for k := 0; k < rounds; k++ {
+					skip, level, err := v.SkipVerify(context.Background(), notation.VerifierVerifyOptions{ArtifactReference: ref})
+					got := "<error>"
+					if err == nil && level != nil {
+						got = level.Name
+					}
+					if k%8 == 0 && want[repo] != "skip" {
+						if out, _ := v.Verify(context.Background(), desc, sig, notation.VerifierVerifyOptions{ArtifactReference: ref, SignatureMediaType: lib.MediaJWS}); out != nil && out.VerificationLevel != nil && got == want[repo] {
+							got = out.VerificationLevel.Name
+						}
+					}
+					r.Event("selections-on-a-shared-verifier")
+					if got != want[repo] || skip != (want[repo] == "skip") {
+						r.Violation(map[string]string{"kind": "selection", "phase": "shared-verifier"}, fmt.Sprintf("goroutine %d asked about %s while 7 others asked about other repositories on the same verifier: it was answered with the level %q (skip=%v, err=%v), its statement has %q", g, repo, got, skip, err, want[repo]), nil)
+						return
+					}
+				}
+			}(g)
+		}
+		wg.Wait()
+		r.Eval("shared-verifier-selection")
+	}
 
 	// ---- 3. blob documents
 	names := []string{"a", "A", "a ", "ab", "b", "a/b", "a.b", "*", "global"}
